@@ -17,6 +17,11 @@ ASSUMPTIONS = [
     "one call duplicated and a different split into batches; the stubs generated from both stores must agree",
     "oracle: the two stubs are textually equal, or they evaluate (harness/stubeval.py) to the same functions, imports, generated classes and "
     "annotations up to the order of union members",
+    "runs: the stub of one trace is generated, then six other generations follow (another fixture function; its default-None parameter observed with one of 6 "
+    "non-None types: scalars, containers, a class, a str-keyed dict) is generated in the same process, then the first stub again: "
+    "both must agree (nothing leaks from one generation into the next)",
+    "order3u: three rows from {[], [1], {'a': 1, 'b': 's'}, set(), None} (an empty container, a non-empty one of the same kind, a member containing a "
+    "union), default rewriter, k = 0, all row orders",
     "outside the claim: actually varying PYTHONHASHSEED across interpreter processes (subsumed by the symbolic set order under the stated "
     "assumption); splitting into batches/connections at the SQLite level is covered by C09's deduplication query check",
 ]
@@ -24,7 +29,7 @@ ASSUMPTIONS = [
 
 def run(tier):
     q = tier == "quick"
-    specs = [("order2q", 500, 5), ("diamond1", 300, 3), ("store_order2", 500, 6), ("samesig", 300, 4)] if q else [("samesig", 200, 4), ("order2q", 240, 5), ("order2", 500, 6), ("order3", 500, 6), ("diamond", 400, 4), ("store_order2", 240, 6), ("store_order", 400, 6)]
+    specs = [("order2q", 500, 5), ("diamond1", 300, 3), ("store_order2", 500, 6), ("samesig", 300, 4), ("runs", 200, 5), ("order3u", 120, 2)] if q else [("runs", 200, 5), ("order3u", 120, 2), ("samesig", 200, 4), ("order2q", 240, 5), ("order2", 500, 6), ("order3", 500, 6), ("diamond", 400, 4), ("store_order2", 240, 6), ("store_order", 400, 6)]
     jobs = [Job("harness.c14", n, H.shards(n, pre), b, bounds=dict(harness=n), rule="one path = (traces, k, rewriter, row permutation/duplication, set iteration orders)",
                 describe=H.describe) for n, b, pre in specs]
     return run_check(PID, tier, jobs, H.FUNCTIONS, ASSUMPTIONS)
